@@ -304,6 +304,16 @@ def _kinds(snap):
     return "points"
 
 
+def _offender(kinds, clause, got_cells, want_cells, src_faces):
+    """cells invented by the loader out of faces: the input class is the kind of face that was turned into a cell"""
+    if clause == "cells" and not want_cells and got_cells:
+        common = {len(c) for c in got_cells} & {len(f) for f in src_faces}
+        if common:
+            k = max(common)
+            return "tri" if k == 3 else "quad" if k == 4 else "poly"
+    return kinds
+
+
 @contextmanager
 def switches(M, sw):
     cfg = M.config
@@ -652,6 +662,8 @@ def _case_text(ctx, exp, snap, path, fmt, kinds, sw, small):
     # the writer was found unsound -> the round trip of that file says nothing more; the reader already failed on the
     # reference writer's file for this very mesh -> same reader defect, reported there
     if rfail and not wfails and fmt not in ctx.read_fail:
+        if rfail[0] == "cells":
+            kinds = _offender(kinds, "cells", o.value["C"], exp["C"], exp["F"])
         _report(ctx, "roundtrip", rfail[0], "mouette.mesh.load", rfail[1], fmt, kinds, sw,
                 {**small, **rfail[2], "file": text[:1500]})
     if not wfails and not rfail:
@@ -809,6 +821,8 @@ def read_phase(ctx, spec, salt, fmt):
                     ctx.read_fail.add(fmt)
                 tag = ":2gons" if var == "2gons" else ""
                 kk = fail[0] if fail[0] in ("vertices", "edges") else kinds
+                if fail[0] == "cells":
+                    kk = _offender(kk, "cells", o.value["C"], model["C"], model["F"])
                 if tag:
                     kk = "edges"
                 icls = f"{fmt}:{kk}{tag}"
